@@ -174,7 +174,13 @@ pub fn cblocks(blocks: &[SBlock], o: &CanonOpts) -> Vec<CBlock> {
                 lang: lang.trim().to_string(),
                 body: trim_blank_lines(&b.text),
             }),
-            BKind::Quote => out.push(CBlock::Quote(cblocks(&b.children, o))),
+            BKind::Quote => {
+                // a quote that holds nothing once its HTML blocks are dropped is not written at all
+                let inner = cblocks(&b.children, o);
+                if !inner.is_empty() {
+                    out.push(CBlock::Quote(inner))
+                }
+            }
             BKind::List { ordered, .. } => {
                 let items = b
                     .children
